@@ -135,7 +135,7 @@ type Backend struct {
 	// SysHostile: how the rows of system.local / system.peers are malformed (0: not at all).  1 local rpc_address null,
 	// 2 local data_center null, 3 local rpc_address 0.0.0.0 (system.local has no peer column to fall back on), 4 local
 	// rpc_address of three bytes, 5 system.local answered with zero rows, 6 system.local answered VOID, 7 local partitioner
-	// null, 8 every peers row with a null rpc_address, 9 peers rows with a null data_center, 10 local row repeated twice
+	// null, 8 every peers row with a null rpc_address, 9 peers rows with a null data_center, 10 local row repeated twice, 11 system.peers answered VOID
 	SysHostile             int
 	SlowStartupVersion     byte                     // if non-zero only STARTUPs of this protocol version are slowed down per host
 	StartupDelay           time.Duration            // every STARTUP is answered after this delay (widens the window in which a session is being created)
@@ -986,7 +986,7 @@ func (c *Conn) handle(hdr, body, raw []byte) bool {
 				return true
 			}
 			res := be.systemRows(c, strings.Contains(uq, "FROM SYSTEM.LOCAL"))
-			if be.SysHostile == 6 && strings.Contains(uq, "FROM SYSTEM.LOCAL") {
+			if (be.SysHostile == 6 && strings.Contains(uq, "FROM SYSTEM.LOCAL")) || (be.SysHostile == 11 && strings.Contains(uq, "FROM SYSTEM.PEERS")) {
 				res = &message.VoidResult{}
 			}
 			be.mu.Unlock()
